@@ -22,6 +22,10 @@
           ncas       (atomic_compare_exchange_strong(&h, &he, h0 + 1), D)
           scopy      (s2 = s1, D)                        (struct copy)
           bitf       (bf.f = 3) + (D - 3)                (bit-field assignment)
+          isub       i1 - i2 = -1 computed in int        (DES of another type than the object's: 7.17.7.4 `C desired`,
+          scneg      a signed char variable holding -1    converted as if by assignment - sign-extension to a wider
+          iwide      an int constant outside a 1-/2-byte  object, truncation to a narrower one; a 32-bit result's upper
+                     object's range (0x1234, 0x12345678)  register half is not its sign)
      EXP  plain &E.e | through a five-argument call
      OBJ  plain &O.x | through a five-argument call
    The three operands are unsequenced with respect to each other; their side
@@ -35,7 +39,7 @@ EXTENDS AtomicSem, TLC, Json, CSV, IOUtils
 CONSTANTS Seed, Stride
 
 Widths == <<1, 2, 4, 8>>
-DesK == <<"plain", "call5", "ext5", "nfetch", "ncas", "scopy", "bitf">>
+DesK == <<"plain", "call5", "ext5", "nfetch", "ncas", "scopy", "bitf", "isub", "scneg", "iwide">>
 PtrK == <<"plain", "call5">>
 Strength == <<"strong", "weak">>
 
@@ -43,6 +47,10 @@ X0 == 7
 D  == 21
 H0 == 5
 E0(path) == IF path = 1 THEN 7 ELSE 9          \* path 1: succeeds, path 2: fails
+(* the value of the DES expression before its conversion to the object's type *)
+DV(k, w) == IF DesK[k] \in {"isub", "scneg"} THEN -1
+            ELSE IF DesK[k] = "iwide" THEN (IF w = 1 THEN 4660 ELSE 305419896)
+            ELSE D
 
 VARIABLES wi, sg, pa, dk, ek, ok, st, out
 vars == <<wi, sg, pa, dk, ek, ok, st, out>>
@@ -50,7 +58,7 @@ vars == <<wi, sg, pa, dk, ek, ok, st, out>>
 (* what the generated function prints: r x e h s2a bff   (guards are checked by the program itself) *)
 Outcome ==
   LET w == Widths[wi]
-      r == Sem("cas", w, sg, Canon(w, X0), D, E0(pa))           \* ret = expected' * 2 + result
+      r == Sem("cas", w, sg, Canon(w, X0), DV(dk, w), E0(pa))   \* ret = expected' * 2 + result
   IN [r   |-> r.ret % 2,
       x   |-> AsLong(w, sg, r.mem),
       e   |-> r.ret \div 2,
@@ -58,9 +66,10 @@ Outcome ==
       s2a |-> IF DesK[dk] = "scopy" THEN 33 ELSE 0,
       bff |-> IF DesK[dk] = "bitf" THEN 3 ELSE 0]
 
-Index == (((((((wi - 1) * 2 + sg) * 2 + (pa - 1)) * 7 + (dk - 1)) * 2 + (ek - 1)) * 2 + (ok - 1)) * 2 + (st - 1))
+Index == (((((((wi - 1) * 2 + sg) * 2 + (pa - 1)) * 10 + (dk - 1)) * 2 + (ek - 1)) * 2 + (ok - 1)) * 2 + (st - 1))
 
-Init == /\ wi \in 1..4 /\ sg \in 0..1 /\ pa \in 1..2 /\ dk \in 1..7 /\ ek \in 1..2 /\ ok \in 1..2 /\ st \in 1..2
+Init == /\ wi \in 1..4 /\ sg \in 0..1 /\ pa \in 1..2 /\ dk \in 1..Len(DesK) /\ ek \in 1..2 /\ ok \in 1..2 /\ st \in 1..2
+        /\ ~(sg = 0 /\ wi >= 3 /\ DV(dk, Widths[wi]) < 0)          \* only conversions whose result TLC can hold
         /\ ((Index * 7919 + Seed) % Stride = 0 \/ (wi \in {1, 3} /\ sg = 1 /\ ek = 1 /\ ok = 1 /\ st = 1))   \* small family always present
         /\ out = FALSE
 
